@@ -43,6 +43,9 @@ ERR_CLASSES = [
     (r"is over the supply limit", "htlc_supply_over_limit"),
     (r"asset is currently inactive", "htlc_asset_inactive"),
     (r"invalid minUnit: ibc/", "token_ibc_minunit"),
+    # classes of the two refusals found by the rule walk (findings/genesis.md); no known finding uses them yet
+    (r"the length of nft uri", "nft_uri_too_long"),
+    (r"Token \S+ does not exist", "token_fee_denom_not_issued"),
 ]
 
 EVERY = T(6, 2)
@@ -61,7 +64,32 @@ def load_known():
     return known
 
 
+# A known finding is a refusal whose *reason holds*: the error text of the known classes carries the values the
+# rule looked at, and a refusal of the same wording whose own numbers do not bear it out (a rule that became one notch
+# too strict prints "100 is over the supply limit 100") is not that finding: it gets a class of its own, which no
+# known finding matches.
+ERR_REFUTED = [
+    (r"supply (\d+)\S* is over the supply limit (\d+)", lambda m: int(m.group(1)) <= int(m.group(2)), "htlc_supply_not_over_limit"),
+    (r"invalid token max supply (\d+), only accepts value \[(\d+),", lambda m: int(m.group(1)) >= int(m.group(2)),
+     "token_max_not_below_initial"),
+    (r"rewardPerShare must be positive, but got (-?[0-9.]+)", lambda m: float(m.group(1)) > 0, "farm_rps_not_zero"),
+    (r"invalid request context state, ID:\w+, State:PAUSED", lambda m: True, "service_context_paused_refused"),
+    (r"invalid request context batch state, ID:\w+, BatchState:BATCH_COMPLETED", lambda m: True, "service_context_paused_refused"),
+]
+
+
+# the harness checks the reason of a refusal of a known wording against the exported genesis itself
+# (harness/cmd/genesis/reasons.go) and marks the error when the export does not show the state the finding is about
+REFUTED_MARK = "[the exported state does not bear this out]"
+
+
 def err_class(msg):
+    if (msg or "").startswith(REFUTED_MARK):
+        return "reason_refuted"
+    for pat, refuted, cls in ERR_REFUTED:
+        m = re.search(pat, msg or "")
+        if m and refuted(m):
+            return cls
     for pat, cls in ERR_CLASSES:
         if re.search(pat, msg or ""):
             return cls
@@ -84,7 +112,14 @@ def failing_instances(ev, clause):
         broken = res.get("broken", [])
         return [((b.split("/")[0] if "/" in b else "invariants"), "invariant") for b in broken] or [("invariants", "invariant")]
     key = "fixpoint" if clause == "C12_Fixpoint" else "durable"
-    return [(m, res.get("kind", {}).get(m, "")) for m in MODULES if res.get(key, {}).get(m) is False]
+    out = []
+    for m in MODULES:
+        if res.get(key, {}).get(m) is False:
+            # one instance per object class with a differing answer (res.kinds), so that a known finding about one
+            # class of a module's answers never hides a difference in another class on the same event
+            kinds = (res.get("kinds", {}).get(m) or []) if key == "durable" else []
+            out += [(m, k) for k in kinds] or [(m, res.get("kind", {}).get(m, ""))]
+    return out
 
 
 class GenesisCheck:
@@ -302,7 +337,9 @@ class GenesisCheck:
 
         def scn(name):
             out = os.path.join(work, f"gt-scn-{name}.ndjson")
-            vlib.run_harness("genesis", "scenario", out, cfg=f"name={name}", timeout=3000)
+            # a scenario that cannot go on (a changed tree refuses one of its steps) still round-trips what it
+            # had recorded; the run is then inconclusive unless a clause failed (never a pass)
+            vlib.run_harness("genesis", "scenario", out, cfg=f"name={name}", timeout=3000, tolerate=True)
             return out
 
         with ThreadPoolExecutor(max_workers=max(1, vlib.NCPU - 2)) as ex:
@@ -407,7 +444,14 @@ class GenesisCheck:
             print(f"VIOLATION property={pid} replay={path}", flush=True)
             return 1
         vlib.write_evidence(pid, tier, seed, cov, wall, 0, assumptions)
-        missing = [r for r in ("asis", "zeroheight", "continuation") if ex_.get(r, 0) == 0]
+        if vlib.CRASHES:
+            log(f"INCONCLUSIVE property={pid}: {len(vlib.CRASHES)} scenario run(s) could not be completed and no clause failed on "
+                f"what they had recorded (first: {vlib.CRASHES[0]})")
+            return 2
+        # the scripted scenarios (a fixed list, independent of the seed) hold durable objects of every module and
+        # continue as-is imports of every module but record (F10) — required on every run
+        missing = [r for r in ["asis", "zeroheight", "continuation"] + ["nonempty_" + m for m in MODULES]
+                   if ex_.get(r, 0) == 0]
         if missing or not by_driver:
             log(f"INCONCLUSIVE property={pid}: never exercised: {missing or 'any module with durable objects in a recorded driver history'}")
             return 2
@@ -429,10 +473,17 @@ TEXT = {"C12": dict(
          "object of the source is queried through the modules' gRPC query servers on both chains (zero-height answers "
          "compared modulo ZeroHeight); as-is imports then execute the remaining recorded blocks and are compared with "
          "the source after every block (the continuation ends at the first differing answer — a clause failure — or, "
-         "without verdict, when transaction results diverge). TLC evaluates the clauses on every logged event.",
+         "without verdict, when transaction results diverge). TLC evaluates the clauses on every logged event. "
+         "The scripted scenarios include a walk over every rule of the modules' ValidateGenesis / InitGenesis: histories that "
+         "leave the exported objects next to each rule's boundary on the accepted side (counters equal or off by one, related "
+         "counters at their extreme reachable values, objects after their last transition and after parameter changes), "
+         "asserted by the scenario itself and round-tripped after every block (findings/genesis.md).",
     note="Trusted: TLC, Go toolchain, the harness' canonical JSON and query enumeration. Coverage is what the recorded "
          "drivers reach: modules without durable objects in any recording are reported as not exercised (evidence "
          "modules_not_exercised) and the check is inconclusive only if no module was exercised. Generated random "
          "numbers and closed HTLCs are not in the property's list of durable objects and are not compared. Farm has no "
          "zero-height step: its answers are compared at the source's height. Known findings are matched per (clause, "
-         "module, kind / error class), so a finding of one module never hides another module on the same event.")}
+         "module, kind / error class), so a finding of one module never hides another module on the same event; every "
+         "differing class of answers of a module is an instance of its own; and a refusal worded like a known finding "
+         "counts as that finding only if the exported genesis really shows the state the finding is about "
+         "(harness/cmd/genesis/reasons.go) - an over-strict rule that refuses a sound export with the same words is new.")}
